@@ -329,6 +329,9 @@ def integrated_checks(rep, rng, drv, k, inp, NQ, D, Dr, D0, a, b, c, convex, o, 
     cls = "NoisyQuadraticDistribution"
     n = rng.choice([1.0, 2.0, 10.0, 100.0, 1000.0, float(rng.randint(2, 999)), 10.0 ** rng.uniform(0, 3)])
     mn = rng.choice([None, False, True])
+    if k.get("replay") and "n" in k["replay"]:       # replay of a recorded violation: the recorded n / minimize
+        n = C.unhex(k["replay"]["n"])
+        mn = k["replay"].get("minimize")
     eff = convex if mn is None else mn
     na = np.array([n])
     rep.count("integrated_curve_pairs")
